@@ -80,6 +80,12 @@ class Lens(ScatteringTheory):
                                                          pol_angle)
 
         particle_kz = positions[2, 0]  # we assume a fixed z
+        if np.ptp(positions[2]) > 1e-13 * (1 + np.abs(particle_kz)):
+            # same restriction (and message) as MieLens: otherwise every
+            # point would silently get the phase of the first one
+            msg = ("lens currently assumes the detector is a fixed " +
+                   "z from the particle")
+            raise ValueError(msg)
         fields *= self._compute_field_phase(particle_kz)
         return fields
 
